@@ -74,6 +74,37 @@ Definition agree_b (pool : list (list word)) (v1 : view) (v2 : view2) : bool :=
   && zll_eqb (s_taus v2) (r_taus v1)
   && zlll_eqb (s_data v2) (map (data_of_var v1) (r_vars v1)).
 
+(* NO CLAIM (F) - bpch1's fallback attributes are stored per offset+id: when a tracer has no tracerinfo line, bpch1.__init__
+   writes tracer_data[offset+id] = dict(SCALE=1, UNIT=<unit of that header>) while it walks the headers, so two walked
+   headers WITHOUT a tracerinfo line that share offset+id (different categories, or an edited tracer id) both present the
+   unit of the one walked last.  The model presents each block's own header unit (the documented fallback, what bpch2
+   does).  Such files are never generated as well-formed input (ASSUMPTIONS: no two tracers share offset+id); an edit of
+   a tracer id can produce one.  On exactly these files the `units` attribute of fallback variables is not compared. *)
+Fixpoint chain_hdrs (fuel : nat) (rest : list word) (rem : Z) : list phdr :=
+  match fuel with
+  | O => []
+  | S f =>
+    if rem <? 220 then [] else
+    let h := parse_hdr rest in
+    if (p_skip h <? 0) || negb (p_skip h mod 4 =? 0) then [h]
+    else h :: chain_hdrs f (skipnZ (55 + p_skip h / 4) rest) (rem - 220 - p_skip h)
+  end.
+Definition hdr_ord (D : dinfo) (h : phdr) : Z := p_tid h + impl_offset D (p_cat h).
+Definition hdr_fallback (T : tinfo) (D : dinfo) (h : phdr) : bool :=
+  match dict_get (fun e => t_ord e =? hdr_ord D h) T with Some _ => false | None => true end.
+Definition unit_collision (T : tinfo) (D : dinfo) (ws : list word) (size : Z) : bool :=
+  let hs := filter (hdr_fallback T D) (chain_hdrs (S (length ws)) (skipn 34 ws) (size - 136)) in
+  existsb (fun h1 => existsb (fun h2 => (hdr_ord D h1 =? hdr_ord D h2) && negb (zlist_eqb (p_unit h1) (p_unit h2))) hs) hs.
+Definition drop_fb_unit (v : var) : var :=
+  match v_unit v with
+  | UHdr _ => {| v_cat := v_cat v; v_name := v_name v; v_tid := v_tid v; v_unit0 := v_unit0 v; v_resv := v_resv v;
+                 v_nx := v_nx v; v_ny := v_ny v; v_nz := v_nz v; v_start := v_start v; v_scale := v_scale v; v_unit := UHdr [] |}
+  | UTab _ => v
+  end.
+Definition drop_fb_units (v : view) : view :=
+  {| r_ftype := r_ftype v; r_title := r_title v; r_model := r_model v; r_nx := r_nx v; r_ny := r_ny v;
+     r_vars := map drop_fb_unit (r_vars v); r_taus := r_taus v; r_data := r_data v |}.
+
 Definition given (c : case_t) : list word := if c_mal c then c_ws c else c_ref c.
 
 Definition checkF (c : case_t) : bool :=
@@ -86,7 +117,9 @@ Definition checkF (c : case_t) : bool :=
           end
      else if c_mode c =? 0 then
        let r := impl_open (c_T c) (c_D c) (given c) (c_size c) in
-       res_match (c_scaled c) r (c_open_ok c) (c_view c)
+       (if unit_collision (c_T c) (c_D c) (given c) (c_size c)
+        then res_match (c_scaled c) (match r with Ok v => Ok (drop_fb_units v) | Err => Err end) (c_open_ok c) (drop_fb_units (c_view c))
+        else res_match (c_scaled c) r (c_open_ok c) (c_view c))
        && match r with
           | Ok v => if c_wrote c then zlist_eqb (impl_write v) (c_written c) else true
           | Err => negb (c_wrote c)
